@@ -824,7 +824,7 @@ func (c *BitcoindClient) reorg(currentBlock waddrmgr.BlockStamp,
 		}
 
 		currentBlock.Height--
-		currentBlock.Hash = currentHeader.PrevBlock
+		currentBlock.Hash = *prevBlock
 		currentBlock.Timestamp = currentHeader.Timestamp
 
 		// Store the correct block in our list in order to notify it
